@@ -27,7 +27,8 @@ ASSUMPTIONS = ["SimTransport.peer_data == one TCP segment arriving (data_receive
 REQUIRED_OBS = ["sends_between_segments", "segmentations_ok", "cuts_inside_header", "cuts_inside_crc", "byte_at_a_time",
                 "slow_subscriber_runs", "second_client_receiving_in_the_gaps",
                 "subscribed_while_a_frame_was_incomplete",
-                "log_level_changed_between_segments"]
+                "log_level_changed_between_segments",
+                "subscribed_from_the_connected_notification"]
 SOAK = True   # also judged by the whole-run monitors of the soak sessions (vf/soak.py)
 BUDGET = {"quick": 100, "thorough": 1500}
 
@@ -78,7 +79,7 @@ _BASE = {}
 
 
 def deliver(gen, stream, cuts, gap, debug=False, delays=None, send_in_gap=False, duo=False,
-            late_sub=False, flip_log=False):
+            late_sub=False, flip_log=False, sub_on_connect=False):
     """Deliver `stream` cut at `cuts`; returns (deliveries, closed, errors, status).
     send_in_gap: the application submits a command after every segment (sending and receiving
     go on at the same time on one connection).
@@ -87,7 +88,9 @@ def deliver(gen, stream, cuts, gap, debug=False, delays=None, send_in_gap=False,
     late_sub: the socket has no message subscriber until the first segment has been dealt with;
     the application subscribes in the gap behind it (gap must be "quiesce").
     flip_log: the application changes the library's log level (WARNING <-> DEBUG) between the
-    segments, as a "set log level" service does at run time."""
+    segments, as a "set log level" service does at run time.
+    sub_on_connect: the message subscriber is registered by a connection subscriber, from inside
+    the connected=True notification, a loop turn after the console's first segment arrived."""
     import pyairtouch.comms.socket as psock
     from .. import sockscript as S
     sent = []
@@ -101,6 +104,18 @@ def deliver(gen, stream, cuts, gap, debug=False, delays=None, send_in_gap=False,
         w = SockWorld(gen, loop, net, log)
         if delays:
             w.msg_delays = list(delays)
+        first_seg_done = []
+        if sub_on_connect:
+            w.sock.unsubcribe_on_message_received(w._on_msg)
+
+            async def hook():
+                c0 = net.current()
+                c0.transport.peer_data(stream[:(list(cuts) + [len(stream)])[0]])
+                first_seg_done.append(1)
+                await asyncio.sleep(0)
+                await asyncio.sleep(0)
+                w.sock.subscribe_on_message_received(w._on_msg)
+            w.on_connect_hooks.append(hook)
         if late_sub:
             w.sock.unsubcribe_on_message_received(w._on_msg)
         await w.open()
@@ -116,6 +131,8 @@ def deliver(gen, stream, cuts, gap, debug=False, delays=None, send_in_gap=False,
             seg = stream[pos[i]:pos[i + 1]]
             if not seg:
                 continue
+            if i == 0 and first_seg_done:
+                continue     # (delivered from inside the connected notification)
             c.transport.peer_data(seg)
             if duo:
                 raw2 = F.probe_frame(gen, 40 + 7 * i)
@@ -216,6 +233,12 @@ def cases(tier, seed):
                         yield {"k": "cuts", "gen": gen, "stream": sname, "gap": gap, "cuts": ch,
                                "duo": True}
             if full:
+                # the message subscriber is registered from inside the connected notification,
+                # after the console's first segment has arrived
+                for ch in _chunks([[i] for i in range(1, n)] + [[]], 100):
+                    yield {"k": "cuts", "gen": gen, "stream": sname, "gap": "turn1", "cuts": ch,
+                           "sub_on_connect": True}
+            if full:
                 # the log level changes while a frame is incomplete
                 for gap in ("turn1", "quiesce"):
                     for ch in _chunks([[i] for i in range(1, n)], 100):
@@ -293,7 +316,11 @@ def run_case(case):
                                             case.get("send_in_gap", False),
                                             case.get("duo", False),
                                             case.get("late_sub", False),
-                                            case.get("flip_log", False))
+                                            case.get("flip_log", False),
+                                            case.get("sub_on_connect", False))
+        if case.get("sub_on_connect"):
+            obs["subscribed_from_the_connected_notification"] = obs.get(
+                "subscribed_from_the_connected_notification", 0) + 1
         if case.get("flip_log"):
             obs["log_level_changed_between_segments"] = obs.get(
                 "log_level_changed_between_segments", 0) + 1
